@@ -29,7 +29,7 @@ DCH = set('ABCDEFGHIJKLMNOPQRSTUVWXYZ0123456789_')
 
 
 def plan(tier):
-    return 100 if tier == 'quick' else 10000
+    return 400 if tier == "quick" else 10000
 
 
 def gen_name(rng):
@@ -97,6 +97,16 @@ def legal_dir(ident, level):
     return True
 
 
+def level4_class(name, exc):
+    if type(exc).__name__ != 'PyCdlibInvalidInput':
+        return None
+    if ';' in name:
+        return 'semicolon'
+    if len(name.encode('utf-8')) > 180:
+        return 'too-long'
+    return None
+
+
 def input_class(s):
     c = []
     if any(ch in s for ch in SPECIAL):
@@ -124,13 +134,16 @@ def load_tool():
     return _tool[0]
 
 
-def check_strings(rng, n, counters, classes):
+def check_strings(rng, n, counters, classes, explicit=None):
     import pycdlib
     from pycdlib import utils, facade
     vio = []
-    for _ in range(n):
-        s = gen_name(rng)
-        level = rng.choice([1, 2, 3, 4])
+    for idx in range(n if explicit is None else len(explicit)):
+        if explicit is None:
+            s = gen_name(rng)
+            level = rng.choice([1, 2, 3, 4])
+        else:
+            s, level = explicit[idx]
         cls = input_class(s)
         counters['strings_checked'] = counters.get('strings_checked', 0) + 1
         # --- files
@@ -161,7 +174,7 @@ def check_strings(rng, n, counters, classes):
         if level < 4 and legal_dir(s, level) is True and d != s:
             vio.append({'key': 'not-idempotent:%d:dir' % level, 'detail': 'legal input %r came back as %r' % (s, d), 'replay': {'name': s, 'level': level}})
         # --- library acceptance (sampled)
-        if rng.random() < 0.25:
+        if explicit is not None or rng.random() < 0.25:
             counters['library_acceptance_checked'] = counters.get('library_acceptance_checked', 0) + 1
             iso = pycdlib.PyCdlib()
             iso.new(interchange_level=level)
@@ -170,12 +183,14 @@ def check_strings(rng, n, counters, classes):
             except Exception as e:
                 if ok is True or ok is None:
                     cls = type(e).__name__
-                    vio.append({'key': 'refused-by-library:%d:file%s%s' % (level, ':semicolon' if ';' in s else '', '' if cls == 'PyCdlibInvalidInput' else ':' + cls), 'detail': 'add_fp(iso_path=%r) derived from %r: %s' % ('/' + ident, s, e), 'replay': {'name': s, 'level': level}})
+                    l4 = level4_class(s, e) if level == 4 else None
+                    vio.append({'key': ('level4-identity:%s' % l4) if l4 else 'refused-by-library:%d:file%s' % (level, '' if cls == 'PyCdlibInvalidInput' else ':' + cls), 'detail': 'add_fp(iso_path=%r) derived from %r: %s' % ('/' + ident, s, e), 'replay': {'name': s, 'level': level}})
             try:
                 iso.add_directory(iso_path='/' + d + ('X' if False else ''))
             except Exception as e:
                 if okd is True and d != ident:
-                    vio.append({'key': 'refused-by-library:%d:dir:%s' % (level, type(e).__name__), 'detail': 'add_directory(iso_path=%r) derived from %r: %s' % ('/' + d, s, e), 'replay': {'name': s, 'level': level}})
+                    l4 = level4_class(s, e) if level == 4 else None
+                    vio.append({'key': ('level4-identity:%s' % l4) if l4 else 'refused-by-library:%d:dir:%s' % (level, type(e).__name__), 'detail': 'add_directory(iso_path=%r) derived from %r: %s' % ('/' + d, s, e), 'replay': {'name': s, 'level': level}})
             try:
                 out = io.BytesIO()
                 iso.write_fp(out)
@@ -211,8 +226,9 @@ def check_facade(rng, counters, classes):
             rr.add_fp(io.BytesIO(data), len(data), '/' + n, 0o100644)
             added[n] = data
         except Exception as e:
+            l4 = level4_class(n, e) if level == 4 else None
             kind = 'collision' if ('duplicate' in str(e).lower()) else type(e).__name__
-            vio.append({'key': 'facade:rr:add_fp:%s' % kind, 'detail': 'level %d add_fp(rr_path=%r): %s: %s' % (level, '/' + n, type(e).__name__, e),
+            vio.append({'key': ('level4-identity:%s' % l4) if (l4 and kind != 'collision') else 'facade:rr:add_fp:%s' % kind, 'detail': 'level %d add_fp(rr_path=%r): %s: %s' % (level, '/' + n, type(e).__name__, e),
                         'replay': {'facade_seed': None}})
     for n, data in added.items():
         try:
@@ -301,17 +317,8 @@ def replay_witness(doc):
     from pycdlib import utils
     vio = []
     k = doc['witness_kind']
-    if k == 'mangle':
-        s, level = doc['name'], doc['level']
-        base, ext = utils.mangle_file_for_iso9660(s, level)
-        ident = '.'.join([base, ext])
-        ok = legal_file(ident, level)
-        if ok is not True and ok is not None:
-            vio.append({'key': 'illegal:%d:file:%s' % (level, ok), 'detail': '%r -> %r' % (s, ident)})
-        d = utils.mangle_dir_for_iso9660(s, level)
-        okd = legal_dir(d, level)
-        if okd is not True:
-            vio.append({'key': 'illegal:%d:dir:%s' % (level, okd), 'detail': '%r -> %r' % (s, d)})
+    if k == 'strings':
+        vio += check_strings(random.Random(0), 0, {}, set(), explicit=[tuple(x) for x in doc['strings']])
     elif k == 'facade-collision':
         iso = pycdlib.PyCdlib()
         iso.new(interchange_level=doc['level'], rock_ridge='1.09')
@@ -320,7 +327,8 @@ def replay_witness(doc):
             try:
                 rr.add_fp(io.BytesIO(b'x'), 1, '/' + n, 0o100644)
             except Exception as e:
+                l4 = level4_class(n, e) if doc['level'] == 4 else None
                 kind = 'collision' if ('duplicate' in str(e).lower()) else type(e).__name__
-                vio.append({'key': 'facade:rr:add_fp:%s' % kind, 'detail': '%r: %s' % (n, e)})
+                vio.append({'key': ('level4-identity:%s' % l4) if (l4 and kind != 'collision') else 'facade:rr:add_fp:%s' % kind, 'detail': '%r: %s' % (n, e)})
         iso.close()
     return vio
